@@ -307,6 +307,12 @@ class Cache2D:
                     epsrel=1e-3, epsabs=1e-4, args=[params])
         fs += spectra[-1,0]*weight
 
+        # Both strongly deleterious
+        weight, err = scipy.integrate.dblquad(sel_dist, min_gamma, np.inf,
+                lambda _: min_gamma, lambda _: np.inf,
+                epsrel=1e-3, epsabs=1e-4, args=[params])
+        fs += spectra[0,0]*weight
+
         return Spectrum(theta*fs)
 
     def integrate_point_pos(self, params, ns, biv_seldist, theta,
